@@ -205,6 +205,13 @@ theorem C11_wrapper_total (tys : List Ty) (args : List GVal) :
     wrapper Skeleton.current tys args ≠ .panicOut :=
   wrapper_ne_panicOut_of_handles _ cur_count_checked (by decide) tys args
 
+/-- The proxy side of the model (`proxyResult … guarded := true`, one argument list per invocation) is
+    what the source does: the result is converted exactly when it is valid, and the `[]interface{}` list
+    of an invocation is built inside the per-invocation function, so concurrent invocations of one
+    closure never share it (checked against the regenerated skeleton). -/
+theorem C11_proxy_matches_source :
+    Skeleton.current.pxResultChecksValid = true ∧ Skeleton.current.pxArgsFreshPerInvocation = true := by decide
+
 end Panrpc.Cv
 
 #print axioms Panrpc.Cv.C11_args_converted
@@ -222,3 +229,4 @@ end Panrpc.Cv
 #print axioms Panrpc.Cv.C11_args_converted_nil_included
 #print axioms Panrpc.Cv.C11_convert_total
 #print axioms Panrpc.Cv.C11_wrapper_total
+#print axioms Panrpc.Cv.C11_proxy_matches_source
